@@ -198,6 +198,14 @@ func c01GenProgs(args []string) {
 				g.Stats[k] += v
 			}
 			mode = "mode_disable_chain"
+		} else if gm == "twin_branches" || (gm == "" && rng.Intn(8) == 0) {
+			// the parametric family "one pipeline, several instances"
+			var st map[string]int
+			p, st = pgen.GenTwinBranches(rng, stagecmd)
+			for k, v := range st {
+				g.Stats[k] += v
+			}
+			mode = "mode_twin_branches"
 		} else {
 			p = g.Gen(stagecmd)
 		}
